@@ -1,7 +1,7 @@
 (* Corollaries of completeness and soundness: printer round trips, a rendering denotes one tree,
    renderings are balanced (so unbalanced input is rejected). *)
 From P2 Require Import Base.Prelude Base.PreludeProofs Lex.Token Syn.Ast Syn.Parse Syn.Render Syn.ParseRel
-  Syn.ParseProofs Syn.ParseSound.
+  Syn.ParseProofs Syn.ParseSound Syn.ParseTotal.
 Local Open Scope nat_scope.
 
 Section Cor.
@@ -195,6 +195,22 @@ Theorem reject_unbalanced : forall f ts, frag_toks ts = true -> balanced ts = fa
   forall e, parse_fuel cfg f ids ts <> POk e.
 Proof.
   intros f ts F B e P. pose proof (renders_balanced e ts (parse_sound cfg ids Htable f ts e F P)). congruence.
+Qed.
+
+(* the same with the canonical, linear fuel of [parse] (ParseTotal: more fuel never changes a result) *)
+Theorem parse_complete_exact : forall r e, wf r = true -> erase r = Some e ->
+  parse cfg ids (flatten r) = POk e.
+Proof.
+  intros r e W E. destruct (parse_complete cfg ids Htable r e W E) as [f0 H].
+  apply (parse_fuel_stable cfg f0); [apply H; lia|discriminate].
+Qed.
+
+Theorem pp_roundtrip_exact : forall d r e, shape r = true -> erase r = Some e ->
+  parse cfg ids (flatten (pp d r)) = POk e.
+Proof.
+  intros d r e Sh E. apply parse_complete_exact.
+  - apply (proj1 (pp_wf d)). exact Sh.
+  - rewrite (proj1 (pp_erase d)). exact E.
 Qed.
 
 End Cor.
